@@ -567,6 +567,24 @@ def c05_masked_update_python_scalar_trace():
     assert float(out[0].get_retval()) == 2.0 and float(back[0].get_retval()) == 1.0 and abs(float(out[1]) + float(back[1])) < 1e-6
     return float(out[1])
 
+@probe
+def c26_csmc_vector_leaf_and_single_particle():
+    """fixed 23c03e0: ImportanceK.estimate_logpdf (run_csmc) raised for k_particles=1 and for traces with a vector-valued leaf"""
+    from genjax import ChoiceMap as CM_, categorical
+    from genjax._src.inference.smc import ImportanceK
+    from genjax._src.inference.sp import Target
+    @gen
+    def model2():
+        z = categorical(jnp.array([0.1, 0.2, 0.7])) @ "z"
+        y = flip(jnp.array([0.1, 0.5, 0.9])[z]) @ "y"
+        return z
+    tgt = Target(model2, (), CM_.kw(y=True))
+    out = []
+    for k in (1, 2, 3):
+        out.append(float(ImportanceK(tgt, k_particles=k).estimate_logpdf(key, CM_.kw(z=jnp.array(2)), tgt)))
+    assert out[0] == 0.0 and all(jnp.isfinite(jnp.array(out)))
+    return out
+
 if __name__ == "__main__":
     names = sys.argv[1:] or list(P)
     bad = 0
